@@ -282,6 +282,32 @@ def build(tier="quick", seed=0):
         pack.add(Obligation(name, lambda tier, name=name, spec_=spec_, want=want: prove_paths(name, th_text_grouped(spec_), lambda p: (p.value == want, f"text output {p.value!r}, expected {want!r}")),
                             replay=lambda w, spec_=spec_, want=want: {"call": "c20_text_grouped", "args": {"format_spec": spec_, "want": want[0].decode()}}, functions=FU + ("flow.record.base:GroupedRecord.__repr__",), mode="one grouped record of two members that share a field name"))
 
+    # the line writer on a grouped record: one line per field of the flat view, each field once, the first member's value for a shared field
+    G_LINES = {"n": ("varint", "42"), "s": ("string", "one"), "k": ("varint", "7"), "_source": ("string", "first"), "_classification": ("string", "None"), "_generated": ("datetime", "2020-01-02 03:04:05+00:00"), "_version": ("varint", "1")}
+
+    def g_expected(opts):
+        sel = opts.get("fields")
+        names = [f for f in (sel.split(",") if sel else list(G_LINES)) if f in G_LINES]
+        labels = {k: (f"{k} ({G_LINES[k][0]})" if opts.get("verbose") else k) for k in names}
+        width = max(len(v) for v in labels.values())
+        return sorted((labels[k].rjust(width) + " = " + G_LINES[k][1] + "\n").encode() for k in names)
+
+    def th_line_grouped(opts):
+        def th():
+            fp = AbsFile(it, mode="wb")
+            A = it.call(RD, ["c20/a", [("varint", "n"), ("string", "s")]], {})
+            B = it.call(RD, ["c20/b", [("string", "s"), ("varint", "k")]], {})
+            g = it.call(base.g["GroupedRecord"], ["c20/grp", [it.call(A, [], {"n": 42, "s": "one", "_generated": GEN, "_source": "first"}), it.call(B, [], {"s": "two", "k": 7, "_generated": GEN, "_source": "second"})]], {})
+            w = it.call(ln.g["LineWriter"], [fp], dict(opts))
+            it.call(it.getattr_(w, "write"), [g], {})
+            return fp.content()
+        return th
+
+    for opts in ({}, {"verbose": True}, {"fields": "k,s"}):
+        name = f"C20.line[grouped record, {opts or 'defaults'}]"
+        pack.add(Obligation(name, lambda tier, name=name, opts=opts: prove_paths(name, th_line_grouped(opts), lambda p, opts=opts: (p.value[:1] == [b"--[ RECORD 1 ]--\n"] and sorted(p.value[1:]) == g_expected(opts), f"line output {p.value!r}, expected the block header and (in some order) {g_expected(opts)!r}")),
+                            replay=lambda w, opts=opts: {"call": "c20_line_grouped", "args": {"opts": opts, "want": [x.decode() for x in g_expected(opts)]}}, functions=FU, mode="one grouped record of two members that share a field name"))
+
     # a template with format specs applied to a record whose fields are unset: the writer does not fail; what is set is rendered as the template says
     UNSET_CASES = [("{s:>6}|{n:05d}|{n}", {"n": 42}, rb"\s*\S*\|00042\|42\n"), ("{s:>6}|{n:05d}|{n}", {}, rb"[^|]*\|[^|]*\|[^|]*\n"), ("{n:x}-{s:^7}-{_source:>3}", {"s": "mid"}, rb"[^-]*-  mid  -[^-]*\n"), ("{s!r:>8}.{n:>4}", {}, rb"[^.]*\.[^.]*\n")]
     for spec_, setv, rx in UNSET_CASES:
